@@ -681,6 +681,46 @@ class Gen:
 }
 """ % dict(n=t.name, fill=fill, datum=datum, rt=rt, lit=natural(t).lit_ns(self.av)))
 
+    def harness_c11(self, t):
+        """C11: the heap the decoder builds is well-typed with respect to the
+        pointer bitmaps of its allocations (engine: strict heap typing on every
+        store, encode side included); natively the decoded value is re-examined
+        after forced collections and same-size-class churn."""
+        fill, rt = self.fill(t), self.rt(t, t)
+        self.guards(t)
+        self.w("""func verifHarness_C11_%(n)s() {
+	verifStrictHeap(true)
+	s, err := %(av)sSchemaForType(%(n)s{})
+	verifAssume(err == nil)
+	c, err := s.Codec(%(n)s{})
+	verifAssume(err == nil)
+	var in %(n)s
+	%(fill)s(&in, "v")
+	w := %(av)sNewWriteBuf(nil)
+	c.Write(w, unsafe.Pointer(&in))
+	out := new(%(n)s)
+	r := %(av)sNewReadBuf(w.Bytes())
+	err = c.Read(r, unsafe.Pointer(out))
+	rb := r.ExtractResourceBank()
+	verifAssert(err == nil, "C11:read-ok")
+	if err == nil {
+		verifAssert(%(rt)s(&in, out), "C11:decoded-value-holds-what-was-decoded")
+		verifGCChurn()
+		verifAssert(%(rt)s(&in, out), "C11:decoded-value-survives-collections")
+		// encoding the decoded value again (map iteration included) gives the same data
+		w2 := %(av)sNewWriteBuf(nil)
+		c.Write(w2, unsafe.Pointer(out))
+		verifGCChurn()
+		var again %(n)s
+		r2 := %(av)sNewReadBuf(w2.Bytes())
+		err = c.Read(r2, unsafe.Pointer(&again))
+		verifAssert(err == nil && %(rt)s(&in, &again), "C11:re-encoding-the-decoded-value-gives-the-same-data")
+	}
+	verifKeepAlive(rb)
+	verifReach("end")
+}
+""" % dict(n=t.name, av=self.av, fill=fill, rt=rt))
+
     def harness_read(self, wt, tt, group, swap=False, wide=False):
         """C03 + C04: a conformant writer (reference encoder with symbolic
         writer-side choices) serialises a symbolic value of wt under wt's
@@ -1180,6 +1220,10 @@ def emit_c13(g, cases):
 	verifReach("end")
 }
 """ % dict(cid=cid, lit=sd.lit(av), n=t.name, fill=fill, assume=assume, av=av, datum=datum, rt=rt))
+        if cid in ("fixed16_ptr", "fixed4"):
+            body = g.out[-1].replace("verifHarness_C13_", "verifHarness_C11_caller_").replace("C13:", "C11:")
+            body = body.replace("{\n\ts := ", "{\n\tverifStrictHeap(true)\n\ts := ", 1)
+            g.w(body)
 
 
 def c13_cases_avro():
@@ -1235,6 +1279,10 @@ def main():
     catalogue_c20_types = catalogue_c20(ga)
     for t in catalogue_c20_types:
         ga.harness_c20(t)
+    for n in ("verifD_PtrMap", "verifD_PtrSlice", "verifD_MapMap", "verifD_MapSlice", "verifD_SliceMap", "verifD_MapPtr", "verifD_SlicePtr",
+              "verifD_SliceSlice", "verifD_PtrBytes", "verifD_SliceBytes", "verifN_MapStruct", "verifN_SliceStruct", "verifN_PtrStruct",
+              "verifM_String", "verifM_Bytes", "verifS_String", "verifP_String", "verifL_String", "verifL_Bytes", "verifP_Int64"):
+        ga.harness_c11(cata[n])
     c15 = [t for _, t in ta] + catalogue_c20_types
     ga.w("func verifC15Catalogue() []any {\n\treturn []any{%s}\n}\n" % ", ".join("%s{}" % t.name for t in c15))
     emit_c05(ga)
@@ -1255,6 +1303,8 @@ def main():
         gn.harness_read(wt, tt, group)
         if group == "nullsame":
             gn.harness_read(wt, tt, group, swap=True)
+    for n in ("verifM_NullString", "verifS_NullString", "verifM_NullBool", "verifM_NullInt"):
+        gn.harness_c11(catn[n])
     emit_c06(gn, [catn[n] for n in ("verifL_NullInt", "verifL_NullBool", "verifL_NullFloat", "verifL_NullString", "verifS_NullInt", "verifM_NullString", "verifP_NullInt")])
     emit_c13(gn, c13_cases_null())
     src = gn.header(['"unsafe"', '', '"github.com/philpearl/avro"', '"github.com/unravelin/null/v5"']) + COMMON_HELPERS + "\n".join(gn.out)
